@@ -595,7 +595,8 @@ class AclMachine(Machine):
             ename = type(err).__name__
             if not isinstance(err, DOCUMENTED):
                 self.probes[f"undocumented_exception[{ename}]"] += 1
-            if twin is not None and type(terr) is not type(err):
+            twin_mismatch = twin is not None and type(terr) is not type(err)
+            if twin_mismatch and (self.prop == "C17" or exp.error is not None):
                 self._fail("C17", "C17.twin-outcome",
                            f"{k}: aged object raised {ename}, fresh twin "
                            f"{'raised ' + type(terr).__name__ if terr else 'returned'}: {err}",
